@@ -1,6 +1,7 @@
 import Mochi.Driver.Util
 import Mochi.Driver.Varint
 import Mochi.Driver.Topics
+import Mochi.Driver.Keepalive
 open Mochi.Driver
 
 structure DState where
@@ -18,7 +19,7 @@ def answer (st : DState) (line : String) : DState × String :=
   match ws with
   | ["reset"] => ({}, "-\tok\t-")
   | _ =>
-    match varintOp impl ws with
+    match (varintOp impl ws <|> keepaliveOp impl ws) with
     | some r => (st, fmt r)
     | none =>
       match topicsOp st.topics impl ws with
